@@ -41,6 +41,54 @@ func (t Time) UnixNano() int64
 func (t Time) UnixMilli() int64
 func (t Time) Add(d Duration) Time
 `,
+	"strings": `package strings
+func EqualFold(s, t string) bool
+func ToLower(s string) string
+func HasPrefix(s, prefix string) bool
+`,
+	"unicode": `package unicode
+func IsLetter(r rune) bool
+func IsDigit(r rune) bool
+func IsNumber(r rune) bool
+func IsSpace(r rune) bool
+`,
+	"unicode/utf8": `package utf8
+const (
+	RuneSelf  = 0x80
+	RuneError = 0xFFFD
+	UTFMax    = 4
+)
+func DecodeRune(p []byte) (rune, int)
+func DecodeRuneInString(s string) (rune, int)
+func Valid(p []byte) bool
+func RuneLen(r rune) int
+`,
+	"sync": `package sync
+type Mutex struct{ state int }
+func (m *Mutex) Lock()
+func (m *Mutex) Unlock()
+type RWMutex struct{ state int }
+func (m *RWMutex) Lock()
+func (m *RWMutex) Unlock()
+func (m *RWMutex) RLock()
+func (m *RWMutex) RUnlock()
+`,
+	"go.uber.org/atomic": `package atomic
+type Uint64 struct{ v uint64 }
+func (x *Uint64) Load() uint64
+type Int64 struct{ v int64 }
+func (x *Int64) Load() int64
+type Bool struct{ v uint32 }
+func (x *Bool) Load() bool
+`,
+	"sync/atomic": `package atomic
+type Uint64 struct{ v uint64 }
+func (x *Uint64) Load() uint64
+type Int64 struct{ v int64 }
+func (x *Int64) Load() int64
+type Bool struct{ v uint32 }
+func (x *Bool) Load() bool
+`,
 	"sort": `package sort
 func Search(n int, f func(int) bool) int
 `,
